@@ -52,6 +52,13 @@ fn mk_input(model: Kv) -> Input {
 
 type Res = Vec<(Vec<u8>, Vec<(usize, u64)>)>;
 
+thread_local! {
+    static EXTEND_ON_NONEMPTY: std::cell::Cell<u64> = std::cell::Cell::new(0);
+}
+fn ev_note_extend() {
+    EXTEND_ON_NONEMPTY.with(|c| c.set(c.get() + 1));
+}
+
 fn oracle(op: &str, ins: &[(&Input, Kind)]) -> Res {
     let mut all: BTreeMap<Vec<u8>, Vec<(usize, u64)>> = BTreeMap::new();
     for (i, (inp, _)) in ins.iter().enumerate() {
@@ -108,6 +115,13 @@ fn run_raw(op: &str, ins: &[(&Input, Kind)], how: usize) -> Res {
     let mut b = raw::OpBuilder::new();
     if how % 3 == 2 && ins.iter().all(|(_, k)| *k == Kind::Whole) {
         b = fsts.iter().collect::<raw::OpBuilder>();
+    } else if (how / 5) % 2 == 1 && ins.len() >= 2 && ins.iter().all(|(_, k)| *k == Kind::Whole) {
+        // fst.op() already holds stream 0; the rest arrives through Extend in two portions
+        ev_note_extend();
+        b = fsts[0].op();
+        let mid = 1 + (how / 5) % (ins.len() - 1).max(1);
+        b.extend(fsts[1..mid.min(fsts.len())].iter());
+        b.extend(fsts[mid.min(fsts.len())..].iter());
     } else {
         for (j, (inp, kind)) in ins.iter().enumerate() {
             let f = &fsts[j];
@@ -142,7 +156,15 @@ fn run_map(op: &str, ins: &[(&Input, Kind)], how: usize) -> Res {
     if how % 3 == 2 && ins.iter().all(|(_, k)| *k == Kind::Whole) {
         b = maps.iter().collect::<map::OpBuilder>();
     } else if how % 3 == 1 && ins.iter().all(|(_, k)| *k == Kind::Whole) {
-        b.extend(maps.iter());
+        // Extend on a builder that already holds streams
+        let mid = (how / 3) % (maps.len() + 1);
+        if mid > 0 && mid < maps.len() {
+            ev_note_extend();
+        }
+        for m in &maps[..mid] {
+            b.push(m);
+        }
+        b.extend(maps[mid..].iter());
     } else {
         for (j, (inp, kind)) in ins.iter().enumerate() {
             let m = &maps[j];
@@ -170,6 +192,10 @@ fn run_set(op: &str, ins: &[(&Input, Kind)], how: usize) -> Vec<Vec<u8>> {
     let mut b = set::OpBuilder::new();
     if how % 3 == 2 && ins.iter().all(|(_, k)| *k == Kind::Whole) {
         b = sets.iter().collect::<set::OpBuilder>();
+    } else if how % 3 == 1 && ins.len() >= 2 && ins.iter().all(|(_, k)| *k == Kind::Whole) {
+        ev_note_extend();
+        b = sets[0].op();
+        b.extend(sets[1..].iter());
     } else {
         for (j, (inp, kind)) in ins.iter().enumerate() {
             let s = &sets[j];
@@ -414,6 +440,7 @@ pub fn run(ctx: &Ctx) -> i32 {
             check_tuple(&ins, b, ev);
             ev.count("cov:large-random-tuples");
         }
+        ev.add("cov:extend-on-non-empty-builder", EXTEND_ON_NONEMPTY.with(|c| c.get()));
         // zero streams: union / symmetric difference of nothing is empty
         if shard == 0 {
             ev.eval(Some(0));
@@ -430,7 +457,7 @@ pub fn run(ctx: &Ctx) -> i32 {
         ev,
         Spec {
             level: "exploration",
-            rule: "one evaluation = one (tuple of input streams, operation) run through raw::/map::/set::OpBuilder (add, push, extend, from_iter in rotation) and compared with the set-theoretic definition: emitted keys, ascending order, exactly-once, and per key the sorted multiset of (stream index, value) entries (difference: only (0, v0)); inputs: ALL k-tuples of subsets of a 4-string universe for k<=5 (quick) / 6-string universe for k<=3 (thorough), sampled k up to 6/8, stream kinds rotated over {whole FST, range() stream, range cutting an extra key, search(AlwaysMatch), search(Complement(Str)) cutting an extra key, user Streamer over a Vec}, the same FST twice, values chosen so equal keys carry equal and differing values, random maps up to 10^3 (quick) / 10^5 (thorough) keys; plus is_disjoint/is_subset/is_superset on all ordered pairs of subsets with FST, range and user-stream arguments; non-trivial = every (tuple, op); distinct = by construction for the exhaustive part, by fingerprint for the sampled part",
+            rule: "one evaluation = one (tuple of input streams, operation) run through raw::/map::/set::OpBuilder (add, push, from_iter, and Extend on builders that already hold streams, in rotation) and compared with the set-theoretic definition: emitted keys, ascending order, exactly-once, and per key the sorted multiset of (stream index, value) entries (difference: only (0, v0)); inputs: ALL k-tuples of subsets of a 4-string universe for k<=5 (quick) / 6-string universe for k<=3 (thorough), sampled k up to 6/8, stream kinds rotated over {whole FST, range() stream, range cutting an extra key, search(AlwaysMatch), search(Complement(Str)) cutting an extra key, user Streamer over a Vec}, the same FST twice, values chosen so equal keys carry equal and differing values, random maps up to 10^3 (quick) / 10^5 (thorough) keys; plus is_disjoint/is_subset/is_superset on all ordered pairs of subsets with FST, range and user-stream arguments; non-trivial = every (tuple, op); distinct = by construction for the exhaustive part, by fingerprint for the sampled part",
             assumptions: vec!["order among IndexedValue entries of one key is unspecified (heap order) and therefore compared as a sorted multiset".into(), "zero-stream difference/intersection are outside the statement and not judged".into()],
             floors: vec![
                 ("cov:has-empty-stream", 100),
@@ -442,6 +469,7 @@ pub fn run(ctx: &Ctx) -> i32 {
                 ("cov:kind=RangeCut", 100),
                 ("cov:kind=SearchCut", 100),
                 ("relation-pairs", 256),
+                ("cov:extend-on-non-empty-builder", 100),
             ],
             exhaustive: Some(false),
         },
